@@ -498,6 +498,114 @@ func c18SetMachine(c *Ctx, kind string, maxDepth int) *Machine[*setInst] {
 	}
 }
 
+// ---- string-valued settings of a Condition ---------------------------------------------------------
+
+type csetInst struct {
+	c     stackage.Condition
+	id    string
+	cat   string
+	enc   [][]string
+	aux   stackage.Auxiliary
+	auxOK bool
+}
+
+func c18CondSetMachine(c *Ctx) *Machine[*csetInst] {
+	type op struct {
+		name string
+		run  func(in *csetInst)
+	}
+	var ops []op
+	add := func(n string, f func(in *csetInst)) { ops = append(ops, op{n, f}) }
+	for _, v := range []string{"alpha", "", "Beta"} {
+		v := v
+		add(fmt.Sprintf("SetID(%q)", v), func(in *csetInst) { in.c.SetID(v); in.id = v })
+		add(fmt.Sprintf("SetCategory(%q)", v), func(in *csetInst) { in.c.SetCategory(v); in.cat = v })
+	}
+	add(`SetID("_addr")`, func(in *csetInst) { in.c.SetID("_addr"); in.id = in.c.Addr() })
+	for _, e := range []struct {
+		n string
+		v []any
+	}{{`"\""`, []any{`"`}}, {`["(",")"]`, []any{[]string{"(", ")"}}}, {`"x"`, []any{"x"}}, {`"X"`, []any{"X"}}, {`[")","]"]`, []any{[]string{")", "]"}}}, {"", nil}} {
+		e := e
+		add("SetEncap("+e.n+")", func(in *csetInst) {
+			in.c.SetEncap(e.v...)
+			if len(e.v) == 0 {
+				in.enc = nil
+				return
+			}
+			for _, a := range e.v {
+				var pair []string
+				switch tv := a.(type) {
+				case string:
+					pair = []string{tv}
+				case []string:
+					pair = tv
+				}
+				dup := false
+				for _, ch := range pair {
+					if inUse(in.enc, ch) {
+						dup = true
+					}
+				}
+				if !dup {
+					in.enc = append(in.enc, pair)
+				}
+			}
+		})
+	}
+	add("SetAuxiliary()", func(in *csetInst) { in.c.SetAuxiliary(); in.aux, in.auxOK = nil, false })
+	add("SetAuxiliary(nil)", func(in *csetInst) { in.c.SetAuxiliary(nil); in.aux, in.auxOK = nil, false })
+	add("SetAuxiliary(map)", func(in *csetInst) { in.c.SetAuxiliary(c18AuxMap); in.aux, in.auxOK = c18AuxMap, true })
+	name := "C18 settings Condition"
+	return &Machine[*csetInst]{
+		Name:    name,
+		New:     func() *csetInst { return &csetInst{c: stackage.Cond("kw", stackage.Le, "val")} },
+		NumOps:  len(ops),
+		OpName:  func(in *csetInst, i int) string { return ops[i].name },
+		Enabled: func(*csetInst, int) bool { return true },
+		Apply: func(in *csetInst, i int, check bool) []string {
+			ops[i].run(in)
+			if !check {
+				return nil
+			}
+			var out []string
+			cls := opClass(ops[i].name)
+			bad := func(k, f string, a ...any) { out = append(out, "cond-"+k+":"+cls+"\x00"+fmt.Sprintf(f, a...)) }
+			cd := in.c
+			if got := cd.ID(); got != in.id {
+				bad("ID", "ID()=%q want %q", got, in.id)
+			}
+			if got := cd.Category(); got != in.cat {
+				bad("Category", "Category()=%q want %q", got, in.cat)
+			}
+			if got := cd.IsEncap(); got != (len(in.enc) > 0) {
+				bad("IsEncap", "IsEncap()=%v want %v (model %q)", got, len(in.enc) > 0, in.enc)
+			}
+			if in.auxOK {
+				if a := cd.Auxiliary(); a == nil || reflect.ValueOf(a).Pointer() != reflect.ValueOf(in.aux).Pointer() {
+					bad("Auxiliary", "Auxiliary() is not the map that was assigned")
+				}
+			} else if strings.HasPrefix(ops[i].name, "SetAuxiliary") {
+				if a := cd.Auxiliary(); a == nil || a.Len() != 0 {
+					bad("Auxiliary", "Auxiliary() after %s = %v, want a fresh empty map", ops[i].name, a)
+				}
+			}
+			if cd.Keyword() != "kw" || cd.Expression() != "val" || cd.Operator() != stackage.Le {
+				bad("content-changed", "%s changed keyword / operator / expression", ops[i].name)
+			}
+			if want, got := "kw <= "+refEncap(in.enc, "val"), cd.String(); got != want {
+				bad("String", "String()=%q want %q (encapsulation %q)", got, want, in.enc)
+			}
+			c.Nontrivial(name + ops[i].name + stackage.VerifDump(cd).Key(false))
+			c.Outcome(cd.String() + cd.ID())
+			return out
+		},
+		Key: func(in *csetInst) string {
+			return strings.ReplaceAll(stackage.VerifDump(in.c).Key(false), in.c.Addr(), "<addr>") + fmt.Sprint(in.auxOK)
+		},
+	}
+}
+
 // ---- log levels --------------------------------------------------------------------------------
 
 type lvlInst struct {
@@ -688,6 +796,14 @@ func init() {
 			c.Exhaustive = c.Exhaustive && st.Complete
 			c.Sample(map[string]any{"machine": m.Name, "states": st.States, "transitions": st.Transitions})
 		}
+		cm := c18CondSetMachine(c)
+		cm.MaxDepth = 3
+		if !c.Quick() {
+			cm.MaxDepth = 4
+		}
+		stc := BFS(c, cm)
+		c.Exhaustive = c.Exhaustive && stc.Complete
+		c.Sample(map[string]any{"machine": cm.Name, "states": stc.States, "transitions": stc.Transitions, "bfs_depth": stc.MaxDepth})
 		c.Rule = "three BFS families on the real code: (1) option bits - every tri-state method found by reflection x {true,false,toggle} from every reachable option set (complete: 2^8 sets on Stacks); (2) string-valued settings (ID, category, delimiter, symbol incl. a letter symbol, case-fold, encapsulation incl. letters, auxiliary, FIFO) - every setter sequence of length <= 3 (quick) / 4 (thorough) from every kind, with state de-duplication; (3) log levels - fix-point over reachable masks with names, constants and raw ints (pairs of arguments in the thorough tier). non-trivial = distinct (state, operation) pairs"
 		c.Assumptions = append(c.Assumptions, "log-level 'none'/'all' shortcuts follow the documentation in log.go (set none = clear and stop, set all = everything and stop, unset none = skip, unset all = clear and stop)", "the settings family covers all setter sequences up to the depth reported in coverage.bound, not a fix-point")
 	}, Replay: func(c *Ctx, raw json.RawMessage) {
@@ -708,6 +824,9 @@ func init() {
 			if m.Name == hc.Machine {
 				replayHistory(c, m, hc.History)
 			}
+		}
+		if cm := c18CondSetMachine(c); cm.Name == hc.Machine {
+			replayHistory(c, cm, hc.History)
 		}
 	}})
 }
